@@ -7,6 +7,8 @@ import Qco.Spec.File
 import Qco.Train.WFc
 import Qco.Train.Model
 import Qco.Train.Huffman
+import Qco.Op.NumDec
+import Qco.Op.BodyWriter
 import Qco.Op.Decomp
 import Qco.Glue.Auto
 import Qco.Bits.Script
@@ -383,6 +385,60 @@ def cmdAst (args : List String) : String :=
     | _, _ => "bad-args"
   | _ => "bad-args"
 
+/-! ### field map of a valid file (`fields`): name, bit offset, width of every metadata field, from the spec decoder.
+Used by the hostile-bytes generator to set whole fields to extreme values. -/
+
+def fieldsOfChunk (d : DType) (fl : Flags) (ci : Nat) (c : DChunk) (start : Nat) : List (String × Nat × Nat) × Nat :=
+  let m := c.cm
+  let pd := prefDType d fl
+  let hasCommon := !fl.gcds || m.commonGcd.isSome
+  let add (acc : List (String × Nat × Nat) × Nat) (name : String) (w : Nat) : List (String × Nat × Nat) × Nat :=
+    (if w == 0 then acc.1 else acc.1 ++ [(s!"c{ci}.{name}", acc.2, w)], acc.2 + w)
+  let a : List (String × Nat × Nat) × Nat := ([], start)
+  let a := add a "magic" 8
+  let a := add a "n" Frozen.bitsNEntries
+  let a := add a "body" Frozen.bitsBodySize
+  let a := (List.range m.moments.length).foldl (fun a i => add a s!"moment{i}" d.signed.physBits) a
+  let a := add a "nprefs" Frozen.bitsNPrefixes
+  let a := if fl.gcds then
+      match m.commonGcd with
+      | some g => add (add (add a "commonflag" 1) "commongcdflag" 1) "commongcd" ((encGcd gbFloat (pd.M - 1) g).length - 1)
+      | none => add a "commonflag" 1
+    else a
+  let a := (m.prefixes.zipIdx).foldl (fun a (p, i) =>
+      let a := add a s!"p{i}.count" (fl.countBits m.n)
+      let a := add a s!"p{i}.lower" pd.physBits
+      let a := add a s!"p{i}.upper" pd.physBits
+      let a := add a s!"p{i}.codelen" fl.codeLenBits
+      let a := add a s!"p{i}.code" p.code.length
+      let a := add a s!"p{i}.jumpflag" 1
+      let a := match p.jump with
+        | some _ => add a s!"p{i}.jumpstart" Frozen.bitsJumpstart
+        | none => a
+      if hasCommon then a
+      else
+        let g := encGcd gbFloat (p.upper - p.lower) p.gcd
+        add (add a s!"p{i}.gcdflag" 1) s!"p{i}.gcd" (g.length - 1)) a
+  let metaEnd := start + 8 + (encChunkMeta gbFloat d fl m).length
+  let a := add a "metapad" (metaEnd - a.2)
+  (a.1, metaEnd + m.bodyBytes * 8)
+
+def cmdFields (args : List String) : String :=
+  match args with
+  | [dt, hex] =>
+    match Frozen.dtypeByName dt with
+    | none => "bad-dtype"
+    | some d =>
+      match decodeFile gbFloat d (Hex.toBits hex) with
+      | .ok f _ =>
+        let h := (encHeader d f.flags).length
+        let r := (f.chunks.zipIdx).foldl (fun (acc : List (String × Nat × Nat) × Nat) (c, ci) =>
+            let (fs, e) := fieldsOfChunk d f.flags ci c acc.2
+            (acc.1 ++ fs, e)) ([("flags", 40, h - 40)], h)
+        "ok " ++ " ".intercalate (r.1.map fun (n, o, w) => s!"{n}:{o}:{w}")
+      | r => resTag r
+  | _ => "bad-args"
+
 /-! ### compressor operations (`cops`) -/
 
 /-- `common_gcd_for_chunk_meta`: the common field the writer emits for a prefix table -/
@@ -474,6 +530,32 @@ def cmdBits (cmd : String) (args : List String) : String :=
   | "bwrite", ops => WB.writerScript ops
   | _, _ => "bad-args"
 
+/-! ### literal models of the body writer (layer W) and of `NumDecompressor` (layer N) -/
+
+/-- `bodywrite <bits> <unsigneds|-> <prefix> ...` -/
+def cmdBodyWrite (args : List String) : String :=
+  match args with
+  | ub :: us :: ps => BodyWriter.run (ps.map parsePrefix) (parseNums us) ub.toNat!
+  | _ => "bad-args"
+
+/-- `numdec <bits> <n> <n_processed> <inc idx:reps|-> <limit> <eoi> <bit_idx> <bytes hex|-> <prefix> ...` -/
+def cmdNumDec (args : List String) : String :=
+  match args with
+  | ub :: n :: np :: inc :: limit :: eoi :: bitIdx :: bytes :: ps =>
+    let prefixes := ps.map parsePrefix
+    let incv : Option (Nat × Nat) :=
+      if inc == "-" then none
+      else match inc.splitOn ":" with
+        | [i, r] => some (i.toNat!, r.toNat!)
+        | _ => none
+    let w : WB.Words := WB.Words.extend {} (if bytes == "-" then [] else hexBytes bytes)
+    let o := NumDec.runDirty ub.toNat! prefixes n.toNat! np.toNat! incv limit.toNat! (eoi == "1") w.ws w.total bitIdx.toNat!
+    let incS := match o.incomplete with
+      | none => "none"
+      | some (p, rem) => s!"{Hex.ofNat (prefixes.getD p default).lower}:{rem}"
+    s!"{o.status} finished={o.finished} inc={incS} bit_idx={o.bitIdx} n={o.unsigneds.length} us={valsStr o.unsigneds}"
+  | _ => "bad-args"
+
 def answer (line : String) : String :=
   match line.trimAscii.toString.splitOn " " with
   | "dec" :: args => cmdDec args
@@ -481,6 +563,9 @@ def answer (line : String) : String :=
   | "dops" :: args => cmdDops args
   | "cops" :: args => cmdCops args
   | "ast" :: args => cmdAst args
+  | "fields" :: args => cmdFields args
+  | "bodywrite" :: args => cmdBodyWrite args
+  | "numdec" :: args => cmdNumDec args
   | "ts" :: args => cmdTs args
   | "bwords" :: args => cmdBits "bwords" args
   | "bread" :: args => cmdBits "bread" args
